@@ -70,6 +70,9 @@ POLL_DEFAULT = False
 # ... and, for every thirteenth case, the loop creates tasks eagerly
 # (loop.set_task_factory(asyncio.eager_task_factory), Python 3.12).
 EAGER_DEFAULT = False
+# ... and, for every seventh case, the application has turned warnings into errors
+# (warnings.simplefilter("error") / python -W error / pytest filterwarnings = error).
+WARN_ERROR_DEFAULT = False
 
 
 def attach_log(log, debug=False):
@@ -95,6 +98,11 @@ def run(main_factory, *, debug_logging=False, loop_debug=False):
         loop.set_debug(True)
     status = "ok"
     result = None
+    import warnings
+    _wctx = warnings.catch_warnings()
+    _wctx.__enter__()
+    if WARN_ERROR_DEFAULT:
+        warnings.simplefilter("error")
     try:
         try:
             result = loop.run_until_complete(main_factory(loop, net, log))
@@ -105,6 +113,7 @@ def run(main_factory, *, debug_logging=False, loop_debug=False):
             status = "livelock"
             log.add("HARNESS.livelock", what=str(e))
     finally:
+        _wctx.__exit__(None, None, None)
         _CAPTURE.log = None
         simloop.close_world(loop)
     return result, log, status
